@@ -898,12 +898,13 @@ static inline int myth_create_join_many_ex_body(myth_thread_t * ids,
 
 static inline int myth_detach_body(myth_thread_t th)
 {
-  MYTH_VERIF_POINT(MYTH_VP_DETACH_FAST, th, 0, th->status==MYTH_STATUS_FREE_READY2);
   if (th->status==MYTH_STATUS_FREE_READY2){
+    MYTH_VERIF_POINT(MYTH_VP_DETACH_FAST, th, 0, 1);
     //If a thread is finished, just release resource
     free_myth_thread_struct_desc(myth_get_current_env(),th);
     return 0;
   }
+  MYTH_VERIF_POINT(MYTH_VP_DETACH_FAST, th, 0, 0);
   //Obtain lock
   myth_spin_lock_body(&th->lock);
   MYTH_VERIF_POINT(MYTH_VP_DETACH_LOCKED, th, 0, myth_desc_is_finished(th));
